@@ -1252,16 +1252,19 @@ def instantiate(ex, cls, args, kwargs):
     """cls(*args) for a real class."""
     if cls in CLASS_NEW:
         return CLASS_NEW[cls](ex, cls, args, kwargs)
-    for k in cls.__mro__:
-        if k in CLASS_NEW:
-            return CLASS_NEW[k](ex, cls, args, kwargs)
     # repo-defined __new__ (Beat)
     owner, raw = ex.class_attr(cls, "__new__")
     clo = ex.wrap_real(raw, owner) if raw is not None else None
     if clo is not None:
         if all_concrete(list(args) + list(kwargs.values())) and issubclass(cls, (fractions.Fraction,)) and ex.depth > 0:
-            return cls(*args, **kwargs)
+            try:
+                return cls(*args, **kwargs)
+            except (ValueError, TypeError, ZeroDivisionError) as e:
+                ex.raise_(type(e), *e.args)
         return ex.call_closure(clo, [cls] + list(args), kwargs)
+    for k in cls.__mro__:
+        if k in CLASS_NEW:
+            return CLASS_NEW[k](ex, cls, args, kwargs)
     if issubclass(cls, tuple) and hasattr(cls, "_fields"):
         return nt_new(ex, cls, args, kwargs)
     if issubclass(cls, enum.Enum):
@@ -1829,6 +1832,7 @@ def _fraction_call(ex, cls, args, kwargs):
 
 
 CLASS_NEW[fractions.Fraction] = _fraction_call
+REAL_CALL[fractions.Fraction.__new__] = lambda ex, args, kwargs: _frac_new(ex, args[0], args[1:], kwargs)
 
 
 def _decimal_call(ex, cls, args, kwargs):
